@@ -1,13 +1,13 @@
 use std::iter::once;
 
 use crate::bound::{Bounds, WhereClauseBuilder};
-use crate::syn_utils::expand_self;
+use crate::syn_utils::{expand_self, self_type};
 use proc_macro2::{Span, TokenStream, TokenTree};
 use quote::{quote, quote_spanned, ToTokens};
 use structmeta::{Flag, ToTokens};
 use syn::{
-    parse::Parse, parse2, parse_quote, spanned::Spanned, Attribute, Expr, Generics, Ident,
-    ItemEnum, ItemStruct, Result, Type,
+    parse::Parse, parse2, spanned::Spanned, Attribute, Expr, Generics, Ident, ItemEnum, ItemStruct,
+    Result, Type,
 };
 
 use super::{
@@ -121,9 +121,8 @@ fn build_compare_op(
     hattrs: &HelperAttributes,
 ) -> Result<TokenStream> {
     let kind = DeriveItemKind::CompareOp(op);
-    let (_, type_g, _) = source.generics().split_for_impl();
     let this_ty_ident = source.ident();
-    let this_ty: Type = parse_quote!(#this_ty_ident #type_g);
+    let this_ty: Type = self_type(this_ty_ident, source.generics());
     let trait_ = kind.to_path();
     // The `Eq` checker is a free function, where `Self` is not available.
     let generics = match op {
